@@ -102,7 +102,8 @@ impl RetryPolicy {
         Fut: Future<Output = Result<T>>,
     {
         let mut attempt = 0;
-        let mut backoff = self.initial_backoff;
+        // The first delay is bounded by max_backoff like every later one
+        let mut backoff = self.initial_backoff.min(self.max_backoff);
 
         loop {
             match f().await {
@@ -129,16 +130,19 @@ impl RetryPolicy {
                         #[allow(clippy::cast_precision_loss)]
                         // Precision loss is acceptable for jitter calculation
                         let jitter_ms = (delay.as_millis() as f64 * jitter) as u64;
-                        delay += Duration::from_millis(jitter_ms);
+                        delay = delay.saturating_add(Duration::from_millis(jitter_ms));
                     }
 
                     sleep(delay).await;
 
-                    // Increase backoff
-                    backoff = Duration::from_secs_f64(
-                        (backoff.as_secs_f64() * self.multiplier)
-                            .min(self.max_backoff.as_secs_f64()),
-                    );
+                    // Increase backoff. The policy can come from the environment, so a
+                    // negative or NaN multiplier, or a product that does not fit a
+                    // Duration, must not panic: the result stays within 0..=max_backoff.
+                    let scaled = (backoff.as_secs_f64() * self.multiplier)
+                        .min(self.max_backoff.as_secs_f64())
+                        .max(0.0);
+                    backoff = Duration::try_from_secs_f64(scaled)
+                        .map_or(self.max_backoff, |d| d.min(self.max_backoff));
                 }
             }
         }
